@@ -122,7 +122,7 @@ func (core *JApiCore) compileUserTypeWithAllDependencies(name string) error {
 			}
 
 			if err := core.checkUserTypeDuringBuild(n, ut); err != nil {
-				return jschemaToJAPIError(err, dd.GetValue(n))
+				return jschemaToJAPIError(err, core.userTypeDirectiveForError(err, n))
 			}
 		}
 
@@ -134,7 +134,7 @@ func (core *JApiCore) compileUserTypeWithAllDependencies(name string) error {
 	// Check user type is correct.
 	// We should do it here 'cause it will simplify further processing.
 	if err := currUT.Check(); err != nil {
-		return jschemaToJAPIError(err, dd.GetValue(name))
+		return jschemaToJAPIError(err, core.userTypeDirectiveForError(err, name))
 	}
 
 	if js, ok := currUT.(*jschema.JSchema); ok && js.Inner.RootNode() == nil {
@@ -154,4 +154,19 @@ func (core *JApiCore) checkUserTypeDuringBuild(name string, ut schema.Schema) er
 	}
 
 	return ut.Check()
+}
+
+// userTypeDirectiveForError returns the TYPE directive whose body the index of
+// the error refers to: the check of a type can fail inside another type which
+// it uses.
+func (core *JApiCore) userTypeDirectiveForError(err error, name string) *directive.Directive {
+	var e kit.Error
+	if stdErrors.As(err, &e) {
+		if n := e.IncorrectUserType(); n != "" && n != name {
+			if d := core.rawUserTypes.GetValue(n); d != nil {
+				return d
+			}
+		}
+	}
+	return core.rawUserTypes.GetValue(name)
 }
